@@ -8,6 +8,7 @@ loadGrammar or xsi:noNamespaceSchemaLocation / external location) vs bin/xm_C10 
 (`spec` request): set of violation kinds."""
 import json
 import os
+import re
 import subprocess
 import sys
 import time
@@ -88,7 +89,7 @@ def name_of(node):
 
 
 def paths_of(xp):
-    return xp.split("|")
+    return G.canon_xpath(xp).split("|")
 
 
 def first_step_after_desc(p):
@@ -197,6 +198,32 @@ def witnesses():
     for sc, ld in (("ig", "pool"), ("ig+p", "pool"), ("sg", "loc"), ("sg+p", "ext")):
         w.append(("reg-anytype-xsitype-dup", ax, "always", sc, ld))
         w.append(("reg-anytype-key-int-ref", ak, "always", sc, ld))
+    # the same value in different spellings (CDATA, character references, comments, PIs), preserve / replace / collapse
+    # types, through both schema-capable scanners
+    def LS(i, text, frag):
+        return ["l", i, {}, text, None, frag]
+    sp1 = mk([ic(0, "k", 0, "c1/l0", ["."]), ic(0, "r", 1, "c2/l1", ["."], 0)],
+             C(0, {}, [C(1, {}, [L(0, "A 1"), LS(0, "x<y", "<![CDATA[x<y]]>")]),
+                       C(2, {}, [LS(1, "A 1", "<![CDATA[A 1]]>"), L(1, "x<y"), LS(1, "A 1", "A<![CDATA[ ]]><!--c-->&#x31;")])]), lt="sss")
+    sp2 = mk([ic(0, "u", 0, "c1/*", ["."])],
+             C(0, {}, [C(1, {}, [LS(0, "ab", "a<![CDATA[b]]>"), L(0, "ab"), LS(1, "a b", "a <![CDATA[ b]]>"), L(1, "a b"),
+                                 LS(2, "a b", "a<![CDATA[ ]]>b"), LS(2, "a b", "a&#x20;b")])]), lt="stN")
+    for sc, ld in (("ig", "pool"), ("sg", "loc"), ("sg+p", "ext")):
+        w.append(("reg-spelling-keyref", sp1, "always", sc, ld))
+        w.append(("reg-spelling-unique", sp2, "always", sc, ld))
+    # namespace wildcards on the attribute and child axes, abbreviated and unabbreviated, with white space
+    def nsm(ics, tree):
+        c = mk(ics, tree, lt="sssis", at="sssiisis")
+        c["lnil"] = [False] * 5
+        c["lplain"] = [False, False, False, True, True]
+        return c
+    t1 = C(0, {}, [C(1, {3: "1"}), C(1, {3: "01"}), C(1, {6: "1"}), C(1, {0: "1"}), C(2, {6: "+1"}), C(2, {6: "2"}), C(2, {3: "9"})])
+    w.append(("reg-nswild-attr", nsm([ic(0, "u", 0, "c1", ["@t:*"]), ic(0, "k", 1, "c1", ["attribute::t:*"]),
+                                      ic(0, "r", 2, "c2", ["attribute~::~o:*"], 0)], t1), "always", "ig", "pool"))
+    w.append(("reg-nswild-attr", nsm([ic(0, "u", 0, "c1", ["@t:*"]), ic(0, "r", 2, "c2", ["@~o:*"], 0)], t1), "always", "sg", "loc"))
+    t2 = C(0, {}, [C(1, {}, [L(3, "1")]), C(1, {}, [L(3, "+1")]), C(1, {}, [L(4, "a")]), C(1, {}, [L(0, "1")])])
+    w.append(("reg-nswild-child", nsm([ic(0, "u", 0, "c1", ["child::t:*"]), ic(0, "k", 1, "./c1/~t:*|c1/o:m1", ["."])], t2),
+              "always", "ig", "pool"))
     w.append(("reg-integer-key-int-ref", mk([ic(0, "k", 0, "c1/l0", ["."]), ic(0, "r", 1, "c2/l1", ["."], 0)],
                                             C(0, {}, [C(1, {}, [L(0, "1"), L(0, "2")]), C(2, {}, [L(1, "+1"), L(1, "02")])]),
                                             lt="ins"), "always", "ig", "pool"))
@@ -205,6 +232,8 @@ def witnesses():
                                            lt="iJb"), "always", "sg", "loc"))
     w.append(("known-F32", mk([ic(0, "u", 0, ".//l0", ["."])], C(0, {}, [C(0, {}, [L(0, "a")]), L(0, "b")])),
               "always", "ig", "pool"))
+    f33 = mk([ic(0, "u", 0, "c1", ["l0|*"])], C(0, {}, [C(1, {}, [L(0, "a")]), C(1, {}, [L(0, "b")])]))
+    w.append(("known-F33", f33, "always", "ig", "pool"))
     w.append(("known-F30", mk([ic(0, "u", 0, "c1", ["@*"])], C(0, {}, [C(1, {0: "a", 1: "1"})])), "always", "ig", "pool"))
     return w
 
@@ -234,12 +263,26 @@ def gen_cases(ctx):
             kind += "+xsitype"
         if "y" in case["ltypes"]:
             kind += "+anytype"
-        if any("@t:g" in f for c in case["ics"] for f in c["fields"]):
+        flds = [G.canon_xpath(f) for c in case["ics"] for f in c["fields"]]
+        if any("@t:g" in f or "@o:h" in f for f in flds):
             kind += "+qattr"
+        if any(":*" in f for f in flds) or any(":*" in c["sel"] for c in case["ics"]):
+            kind += "+nswild"
+        if any("::" in f or "~" in f for c in case["ics"] for f in c["fields"] + [c["sel"]]):
+            kind += "+xpspell"
+        spelled = any(len(n) > 5 and n[5] is not None for n, _, _ in walk(case["tree"]))
+        if spelled:
+            kind += "+spelled"
         out.append((kind, case, "always", "ig", "pool"))
         # the same pair under another configuration (SGXMLScanner is only driven through schema locations)
         scheme = rng.choice(["always", "auto", "auto"])
         scanner = rng.choice(["ig", "sg", "ig+p", "sg+p"])      # +p: a no-op PSVIHandler is installed
+        if case.get("entities"):
+            # internal entities need a DOCTYPE: SGXMLScanner does not process one, and under Val_Auto a DOCTYPE switches
+            # DTD validation on; such instances go through IGXMLScanner with Val_Always only
+            scheme, scanner = "always", rng.choice(["ig+p", "ig"])
+        elif spelled:
+            scanner = rng.choice(["sg", "sg+p", "sg", "ig+p"])   # both schema-capable scanners see every spelling
         # Val_Auto only switches validation on when the instance points to its schema: no Val_Auto + loadGrammar pairs
         load = rng.choice(["loc", "ext"]) if (scanner.startswith("sg") or scheme == "auto") else rng.choice(["pool", "loc", "ext"])
         if (scheme, scanner, load) != ("always", "ig", "pool"):
@@ -248,6 +291,7 @@ def gen_cases(ctx):
 
 
 MATCHER_FINDINGS = ("F14", "F26", "F30")
+FX_ON = False
 
 
 def same_verdict(x, sk):
@@ -266,10 +310,17 @@ def cls_nested_scope(case):
     return False
 
 
+def cls_field_union(case):
+    """F33 class: a field whose XPath is a union of two or more (different) location paths"""
+    return any(len(set(paths_of(f))) > 1 for c in case["ics"] for f in c["fields"])
+
+
 def attribute(case, ik, sk, fk, nested):
     """impl == model but the kinds differ from the Spec: which known finding(s) explain it?  returns list of ids or None"""
     def matcher_label():
-        if any("@*" in f for c in case["ics"] for f in c["fields"]):
+        if FX_ON:
+            return "F14"
+        if any(re.search(r"@(\w+:)?\*", G.canon_xpath(f)) for c in case["ics"] for f in c["fields"]):
             return "F30"
         return "F26" if cls_desc_self(case) else "F14"
     if same_verdict(fk, sk):
@@ -280,6 +331,8 @@ def attribute(case, ik, sk, fk, nested):
         if fk != ik:
             lab.append(matcher_label())
         return lab
+    if cls_field_union(case) and "FieldMulti" in ik and "FieldMulti" not in sk:
+        return ["F33"]
     if nested:
         return ["F27"]
     if cls_nested_scope(case):
@@ -295,6 +348,7 @@ WHAT = {
     "F29": "key-sequences occurring in two child scopes are not dropped from the ancestor's node table (keyref accepted)",
     "F30": "attribute wildcard field @* uses the first attribute only",
     "F32": "nested scopes of one constraint share FieldActivator::fMayMatch (spurious / missed IC_FieldMultipleMatch)",
+    "F33": "two members of a field's union that select the same node are reported as a multiple match",
 }
 
 
@@ -327,6 +381,42 @@ def run(ctx):
         reqs = [(tag, case, G.request(case, scheme, scanner, load)) for tag, case, scheme, scanner, load in witnesses()]
         reqs += [(kind, case, G.request(case, scheme, scanner, load)) for kind, case, scheme, scanner, load in gen_cases(ctx)]
     lines = [r[2] for r in reqs]
+    # Which XPathMatcher::startElement does /repo have?  The literal witnesses of F26 and F30 decide whether the model
+    # with the repairs of fixes/C10-xpath-context-and-attr-wildcard.patch (switch fx of Model10.p_start) is the faithful one.
+    os.environ["C10_FX"] = "0"
+    global FX_ON
+    FX_ON = False
+    if not ctx.replay:
+        probe = [G.request(case, sch, sc, ld) for tag, case, sch, sc, ld in witnesses() if tag in ("known-F26", "known-F30")]
+        _, pi, _ = run_bin(xh, probe)
+        _, ps, _ = run_bin(xm, ["spec" + l[2:] for l in probe])
+        ok = [kinds_of_answer(i)[0] == spec_kinds(s_) for i, s_ in zip(pi, ps)]
+        if all(ok):
+            FX_ON = True
+            os.environ["C10_FX"] = "1"
+            ctx.note("XPathMatcher::startElement carries the repairs of F26/F30: model switch fx = true")
+        elif any(ok):
+            ctx.violation("fix-partial", {"what": "only one of the two repairs of fixes/C10-xpath-context-and-attr-wildcard.patch "
+                                                  "is present (witness known-F26 / known-F30 conform: %s); the model has a single "
+                                                  "switch for both" % ok, "request": probe[0]}, no_input=True)
+    elif os.environ.get("C10_FX_REPLAY"):
+        os.environ["C10_FX"] = os.environ["C10_FX_REPLAY"]
+    # F34: literal witness only (the model's path type has no self step inside a path): selector c1/./l0
+    if not ctx.replay:
+        f34 = mk([ic(0, "k", 0, "c1/./l0", ["."])], C(0, {}, [C(1, {}, [L(0, "a"), L(0, "a")])]))
+        ref = mk([ic(0, "k", 0, "c1/l0", ["."])], C(0, {}, [C(1, {}, [L(0, "a"), L(0, "a")])]))
+        _, o34, _ = run_bin(xh, [G.request(f34), G.request(ref)])
+        ctx.count(2)
+        if len(o34) == 2 and o34[1] == "r IC_DuplicateKey*1" and o34[0] == "r -":
+            if ctx.find_known("F34"):
+                ctx.known_finding("F34", "a '.' step inside a path (c1/./l0) makes the matcher skip the following child step: "
+                                         "nothing is selected (witness: duplicate keys unreported)")
+            else:
+                ctx.violation("F34", {"request": G.request(f34), "impl": o34[0], "expected": o34[1],
+                                      "what": "selector c1/./l0 selects nothing (c1/l0 reports the duplicate key)"})
+        elif len(o34) == 2 and o34[0] != o34[1]:
+            ctx.violation("F34", {"request": G.request(f34), "impl": o34[0], "expected": o34[1],
+                                  "what": "selector c1/./l0 and c1/l0 give different verdicts"})
     tA = time.time()
     rc1, impl, err1 = run_parallel(xh, lines)
     tB = time.time()
